@@ -10,7 +10,7 @@ FIELDS = ["str", "val", "raw_user", "raw_password", "raw_host", "host_subcompone
 def run(out, sc, tier, seed):
     run_model(out, sc, "MC_Ports", ["Inv_PortText"], label="MC_Ports[authority split]")
     run_value_machine(out, sc, "C11", tier, fields=FIELDS)
-    n = 12000 if tier == "quick" else 300000
+    n = 12000 if tier == "quick" else 100000
     run_progs(out, sc, "C11", {"gen": "progs", "n": n, "seed": seed, "surrogate_p": 0.02, "fields": FIELDS,
                                "build_p": 0.15, "depths": [1, 2, 2, 3]}, "progs")
     run_harvest(out, sc, "C11")
